@@ -54,7 +54,7 @@ ERRORS = [b"error:20", b"Error:Printer halted. kill() called!", b"ALARM:1", b"!!
 
 
 class Script(Behaviour):
-    def __init__(self, rng, lat, errors_at, report_at, noise_at, drop_at, transport):
+    def __init__(self, rng, lat, errors_at, report_at, noise_at, drop_at, transport, async_after=None):
         self.rng = rng
         self.lo, self.hi = LAT[lat]
         self.errors_at = dict(errors_at)     # index -> error line
@@ -63,6 +63,8 @@ class Script(Behaviour):
         self.drop_at = drop_at
         self.transport = transport
         self.reported = {}                   # index -> X value reported for that statement
+        self.async_error_after = dict(async_after or {})   # index -> error line sent while idle
+        self.async_gap = 0.05
         self.extra_gap = 0.0
 
     def latency(self, dev, index, line):
@@ -117,8 +119,9 @@ def make_statements(rng, n):
     return rec.payloads[1:n + 1]
 
 
-def run_scenario(ctx, col, case, tag, rng, transport, regime, lat, n, errors_at, report_at, noise_at, drop_at):
-    beh = Script(rng, lat, errors_at, report_at, noise_at, drop_at, transport)
+def run_scenario(ctx, col, case, tag, rng, transport, regime, lat, n, errors_at, report_at, noise_at, drop_at,
+                 async_after=None):
+    beh = Script(rng, lat, errors_at, report_at, noise_at, drop_at, transport, async_after)
     if transport == "serial":
         dev = MarlinPTY(beh).start()
         w = SerialWriter(dev.port, 115200)
@@ -130,7 +133,8 @@ def run_scenario(ctx, col, case, tag, rng, transport, regime, lat, n, errors_at,
     state = {"disconnect_t": None, "hung": False}
     info = {"tag": tag, "transport": transport, "regime": regime, "latency": lat, "n": n,
             "errors_at": {k: v.decode() for k, v in errors_at.items()}, "reports_at": sorted(report_at),
-            "noise_at": sorted(noise_at), "drop_at": drop_at}
+            "noise_at": sorted(noise_at), "drop_at": drop_at,
+            "async_error_after": {k: v.decode() for k, v in (async_after or {}).items()}}
     pert = sched.Perturber(sched.printrun_functions(), seed=rng.randrange(1 << 30), p_yield=0.25, p_sleep=0.01)
 
     def body():
@@ -155,6 +159,8 @@ def run_scenario(ctx, col, case, tag, rng, transport, regime, lat, n, errors_at,
                 out, err = "other", repr(e)
             t_ret = time.monotonic_ns()
             client.append((i, t_call, t_ret, out, err, w.get_parameter("X"), w.get_parameter("T")))
+            if async_after and i in async_after:
+                time.sleep(0.3)     # the caller is idle while the device reports the asynchronous error
             if drop_at is not None and out != "ok":
                 break
         try:
@@ -249,6 +255,8 @@ def analyse(ctx, col, case, info, dev, beh, statements, client, state):
             return None
     # 2.-4. per write -----------------------------------------------------------------------
     strict_fail, weak_fail, late_errors, reading_fail = [], [], [], []
+    # an error line sent while the caller was idle after statement k must be raised by write(k+1)
+    async_after = {int(k) for k in info.get("async_error_after", {})}
     all_replies = sorted([t for t, k, _ in events if k in ("ack", "tx-extra")])
     for i, t_call, t_ret, out, err, xread, tread in client:
         col.count("writes_checked")
@@ -257,7 +265,9 @@ def analyse(ctx, col, case, info, dev, beh, statements, client, state):
             if out == "ok" and ack is None:
                 return fail("write-returned-normally-without-any-acknowledgement-after-connection-loss", index=i)
             continue
-        is_err = i in info["errors_at"]
+        is_err = i in info["errors_at"] or (i - 1) in async_after
+        if (i - 1) in async_after:
+            col.count("async_errors_expected")
         if is_err:
             col.count("error_replies")
         if out == "other":
@@ -400,8 +410,12 @@ def run_shard(ctx, col):
             if drop_at is not None:
                 errors_at = {}
                 regime = "quiesced"     # with a stale handshake ack (known finding) a loss cannot be judged
+            async_after = None
+            if drop_at is None and not errors_at and rng.random() < 0.3:
+                regime = "quiesced"
+                async_after = {rng.randrange(n - 1): rng.choice(ERRORS)}
             run_scenario(ctx, col, case, f"random:{j}", rng, transport, regime, lat, n, errors_at,
-                         report_at, noise_at, drop_at)
+                         report_at, noise_at, drop_at, async_after)
         if case == 0:
             col.sample({"statements": [s.decode() for s in make_statements(ctx.rng(0, "sample"), 4)],
                         "device_script": "latency / unsolicited lines / report before ack / final reply ok|error / drop"})
